@@ -1,1 +1,3 @@
 import Ypv.Props.C02
+#print axioms Ypv.C02.coords_chain
+#print axioms Ypv.C02.kids_coords_chain
